@@ -82,6 +82,14 @@ def model_part(v, tier, clauses, props, seed_off=0):
     rep = dict(rep, _key={"costs": "signed"})
     allinsts.append(rep)
     tot = AM.run_model(v, SyncBBBinding(), allinsts, {}, invs, clauses, props, max_paths=400 if quick else None, stale_model_is_divergence=True)
+    # liveness, without any constraint: under weak fairness of the steps every behaviour ends with all computations finished
+    _, lres = AM.model_check("SyncBB", [AM.with_vrank(i) for i in allinsts], {}, [], False, workers=4, timeout=900, spec="FairSpec", properties=["Terminates"])
+    v.add_tlc(lres, "SyncBB.tla: PROPERTY Terminates under SPECIFICATION FairSpec on the same %d instances" % len(allinsts))
+    if lres.violated or not lres.distinct or any("emporal" in e for e in lres.errors):
+        from .common import MachineryError
+        raise MachineryError("SyncBB.tla: the liveness property Terminates fails in the model (or TLC failed): %s" % (lres.violated or lres.errors[:2] or lres.out[-300:]))
+    tot["liveness"] = "PROPERTY Terminates (<>[](Quiet /\\ AllFinished)) under SPECIFICATION FairSpec (weak fairness of the steps), no state constraint"
+    tot["liveness_checked_states"] = lres.distinct
     v.cov["syncbb_model"] = dict(tot, invariants=invs, instances_by_stratum=strata)
     v.cov["replayed_paths"] = v.cov.get("replayed_paths", 0) + tot["paths"]
     v.cov["replayed_steps"] = v.cov.get("replayed_steps", 0) + tot["steps"]
